@@ -221,7 +221,7 @@ func runC09(p *engine.Prog, r *engine.Report) {
 			v := returnedValue(ret, 0)
 			ck := fmt.Sprintf("saver %s return#%d", engine.FuncName(sv), i+1)
 			ok, why := false, ""
-			switch x := v.(type) {
+			switch x := unwrapErr(v).(type) {
 			case *ssa.Call:
 				if engine.CalleeIs(x.Common(), "os", "", "Rename") {
 					ok, why = true, "returns the rename's result"
@@ -241,8 +241,7 @@ func runC09(p *engine.Prog, r *engine.Report) {
 						why = "returns nil without having replaced the store (an update would be acknowledged but not persisted)"
 					}
 				} else {
-					nn := engine.Not(engine.EqAtom(fi.T(v).S, "nil"))
-					if okk, _ := fi.Implies(ret.Block(), nn); okk {
+					if nonNilErrAt(fi, v, ret.Block(), 0) {
 						ok, why = true, "error return"
 					} else {
 						why = "returns " + fi.T(v).S + " which is not known to be non-nil and is not the rename's result"
@@ -619,3 +618,61 @@ func checkJSONFields(r *engine.Report, rule string, n *types.Named, fields []str
 }
 
 func controlsC09(p *engine.Prog) []Control { return nil }
+
+// wrapsErr: call is one of the wrappers of github.com/pkg/errors that return nil exactly when the error given is nil.
+func wrapsErr(call *ssa.Call) bool {
+	callee := call.Call.StaticCallee()
+	if callee == nil || callee.Pkg == nil || callee.Pkg.Pkg.Path() != "github.com/pkg/errors" || len(call.Call.Args) == 0 {
+		return false
+	}
+	switch callee.Name() {
+	case "Wrap", "Wrapf", "WithMessage", "WithMessagef", "WithStack":
+		return true
+	}
+	return false
+}
+
+// unwrapErr strips such wrappers: the value whose nil-ness decides the result's.
+func unwrapErr(v ssa.Value) ssa.Value {
+	for d := 0; d < 4; d++ {
+		call, ok := v.(*ssa.Call)
+		if !ok || !wrapsErr(call) {
+			return v
+		}
+		v = call.Call.Args[0]
+	}
+	return v
+}
+
+// nonNilErrAt: the error value v is known not to be nil at block b: by the path condition, because it was just
+// constructed (fmt.Errorf, errors.New), or because it wraps a value that is.
+func nonNilErrAt(fi *engine.FuncInfo, v ssa.Value, b *ssa.BasicBlock, depth int) bool {
+	if depth > 4 {
+		return false
+	}
+	if ok, _ := fi.Implies(b, engine.Not(engine.EqAtom(fi.T(v).S, "nil"))); ok {
+		return true
+	}
+	switch x := v.(type) {
+	case *ssa.MakeInterface:
+		return nonNilErrAt(fi, x.X, b, depth+1)
+	case *ssa.Call:
+		if wrapsErr(x) {
+			return nonNilErrAt(fi, x.Call.Args[0], b, depth+1)
+		}
+		if callee := x.Call.StaticCallee(); callee != nil && callee.Pkg != nil {
+			switch callee.Pkg.Pkg.Path() + "." + callee.Name() {
+			case "fmt.Errorf", "errors.New", "github.com/pkg/errors.New", "github.com/pkg/errors.Errorf":
+				return true
+			}
+		}
+	case *ssa.Phi:
+		for i, e := range x.Edges {
+			if !nonNilErrAt(fi, e, x.Block().Preds[i], depth+1) {
+				return false
+			}
+		}
+		return true
+	}
+	return false
+}
